@@ -127,9 +127,6 @@ def gen_world(r, knobs=None):
     k.update(knobs or {})
     names = list(TASK_NAMES)
     r.shuffle(names)
-    if r.random() < 0.15:
-        # a task named like a group (a group is not a task: nothing may leak between them)
-        names.append(r.choice(['grp', 'hh', 'gx']))
     ns_names = list(NS_NAMES)
     r.shuffle(ns_names)
     classes = []
@@ -187,7 +184,16 @@ def gen_world(r, knobs=None):
                     names.append(name)
                     name = ext
             cid = len(classes)
-            grp = r.choice(GROUPS) if k['groups'] and not name.endswith('_x') else None
+            if r.random() < 0.2:
+                # a task named like the (first level of the) group of a task it can take as input: a group is not a task,
+                # nothing may leak between the two
+                reach_slugs = [classes[c_]['slug'] for c_ in cids] + [classes[c_]['slug'] for rel_, q_ in rch if q_ != pi and rel_ == '' for c_ in pipelines[q_]['classes']]
+                gnames = sorted({s_.split(':')[0] for s_ in reach_slugs if ':' in s_ and s_.split(':')[0] in ('grp', 'hh', 'gx')})
+                gnames = [g_ for g_ in gnames if all(c_['name'] != g_ for c_ in classes)]
+                if gnames:
+                    names.append(name)
+                    name = r.choice(gnames)
+            grp = r.choice(GROUPS) if k['groups'] and not name.endswith('_x') and name not in ('grp', 'hh', 'gx') else None
             base = 'Task'
             group = grp
             explicit_name = None
@@ -250,6 +256,10 @@ def gen_world(r, knobs=None):
                 cands += [(rel, c2) for c2 in pipelines[q]['classes']]
             inputs = []
             r.shuffle(cands)
+            namesake = [c_ for c_ in cands if classes[c_[1]]['slug'].startswith(name + ':')]
+            if namesake:
+                # a task named like the group of one of its inputs, which it computes during its own run
+                cands = namesake[:1] + [c_ for c_ in cands if c_ not in namesake[:1]]
             used_cls = set()
             style = r.choice(k['styles'])
             if twin is not None and r.random() < 0.6:
@@ -258,7 +268,7 @@ def gen_world(r, knobs=None):
                 tc = r.choice(pipelines[slots[twin[0]]['pipe']]['classes'])
                 cands = [(slots[twin[0]]['ns'], tc), (slots[twin[1]]['ns'], tc)] + [c_ for c_ in cands if c_[1] != tc]
             used_rel = set()
-            for rel, c2 in cands[: r.choice([0, 1, 1, 2, 3]) if not (twin is not None and style == 'index') else r.choice([2, 3])]:
+            for rel, c2 in cands[: r.choice([0, 1, 1, 2, 3] if not namesake else [1, 2]) if not (twin is not None and style == 'index') else r.choice([2, 3])]:
                 if c2 in used_cls and (style != 'index' or (rel, c2) in used_rel):
                     continue    # the same task twice (under different namespaces) can only be told apart by index
                 used_cls.add(c2)
@@ -289,7 +299,7 @@ def gen_world(r, knobs=None):
             # required (non-optional) inputs come first in Meta.input_tasks; optional ones are InputTaskParameters
             inputs.sort(key=lambda i: bool(i['optional']))
             n_in = len(inputs)
-            reads = [i for i in range(n_in) if r.random() < 0.75]
+            reads = [i for i in range(n_in) if r.random() < 0.75 or (namesake and i == 0)]
             r.shuffle(reads)
             classes.append({
                 'py': py, 'name': name, 'meta_name': explicit_name, 'base': base, 'group': group, 'stray_group': stray_group, 'slug': slug, 'pipe': pi,
@@ -314,7 +324,7 @@ def gen_world(r, knobs=None):
             configs.append({'name': f'cfg{ci}', 'pipe': pi, 'values': vals, 'fills': fills})
             cfg_of_pipe[pi].append(ci)
             tw = pipelines[pi].get('twin')
-            if tw and fills[tw[0]] != fills[tw[1]] and r.random() < 0.8:
+            if tw and fills[tw[0]] != fills[tw[1]] and r.random() < 0.8 and pi not in single_cfg:
                 # the same pipeline with the two mounted configs swapped: a different computation downstream
                 f2 = list(fills)
                 f2[tw[0]], f2[tw[1]] = f2[tw[1]], f2[tw[0]]
